@@ -407,6 +407,8 @@ func runC20(c *Ctx) {
 					bucket += "-desc"
 				}
 				c.Op("pextract "+b.sels+" "+toks, res, true, bucket)
+				// and from the text of the path: parser and walk together against the model
+				c.Op("ptext "+c20Runes(b.text)+" "+toks, res, true, "extract-from-text")
 			}
 			// Path.Unmarshal decodes the same parts
 			parts, err := b.p.Extract([]byte(d))
@@ -441,6 +443,7 @@ func runC20(c *Ctx) {
 				continue
 			}
 			c.Op("pextract "+b.sels+" "+toks, c20Extract(b.p, []byte(d)), true, "extract-directed-desc")
+			c.Op("ptext "+c20Runes(b.text)+" "+toks, c20Extract(b.p, []byte(d)), true, "extract-from-text")
 			parts, err := b.p.Extract([]byte(d))
 			okp := err == nil
 			for _, part := range parts {
